@@ -720,6 +720,7 @@ func ruleC02(c *Ctx) {
 	c.rule("C02-R1", "context wiring: dsig validation contexts are constructed only in validationContext(), over sp.IDPCertificateStore, with ctx.Clock = sp.Clock; every Validate receiver in library scope is a validationContext() result")
 	c.rule("C02-R2", "fatal errors at all four verify sites (SSO root, per-assertion, LogoutResponse, LogoutRequest): only ErrMissingSignature at a root site continues")
 	c.rule("C02-R3", "no downgrade: on the ErrMissingSignature continuation the trust flag of the returned object is the constant false")
+	c.rule("C02-R4", "only goxmldsig decides that a message is unsigned: with validation enabled every accepting path of the three validators has called dsig Validate on the parsed root element (no cheaper pre-check may classify a message as unsigned and skip the verification of a signature that is present but placed unusually)")
 	ctxWiring(c, "C02-R1")
 	total := 0
 	for _, spec := range []inboundSpec{ssoSpec, loRespSpec, loReqSpec} {
@@ -728,6 +729,31 @@ func ruleC02(c *Ctx) {
 		if res == nil {
 			continue
 		}
+		nR4 := 0
+		for _, t := range res.Terms {
+			if !t.accepting(res.Root) {
+				continue
+			}
+			if skip, known := skipFact(t); !known || skip {
+				continue
+			}
+			nR4++
+			rootChecked := false
+			for _, e := range t.St.events {
+				if e.Kind == EvCall && shortName(e.Callee) == dsigValidate && len(e.Args) > 1 && provOf(t, e.Args[1]) == "raw" {
+					rootChecked = true
+				}
+			}
+			if rootChecked {
+				c.ok("C02-R4", shortFn(res.Root), "validation enabled => the parsed root went through dsig Validate ["+labelReturn(c, t)+"]", c.P.InstrPos(t.Instr), "Validate(parsed root) on the path")
+			} else {
+				o := c.bad("C02-R4", shortFn(res.Root), "validation enabled => the parsed root went through dsig Validate ["+labelReturn(c, t)+"]", c.P.InstrPos(t.Instr),
+					"an accepting path with signature validation enabled never hands the parsed root to dsig Validate: whether the message is signed is decided by something else, so a present-but-invalid signature can be treated as absent")
+				o.Path = t.pathDesc(c.P)
+			}
+		}
+		c.count("C02-R4/validating-accepting-paths "+shortFn(res.Root), nR4)
+		c.floor("C02-R4/validating-accepting-paths "+shortFn(res.Root), 2)
 		for _, t := range res.Terms {
 			if !t.accepting(res.Root) || !strings.Contains(labelReturn(c, t), "unsigned-root") {
 				continue
